@@ -152,6 +152,26 @@ func c09Wrap(payload []byte, dpad, ipad uint64, codec uint64) (file []byte, idxO
 	return buf.Bytes(), idxOff
 }
 
+// c09AmplifyPayload: the worst case of overlapping sections.  Every section is "length 6, identity CID
+// whose digest is everything that follows" and starts on the first digest byte of the one before, so
+// a walker that seeks by (length - cidLength) re-reads the rest of the file once per 7 bytes:
+// cumulative allocation and time are quadratic in the input (known finding
+// "section-shorter-than-its-cid"; theories/Alloc.v resume_sections_ok is the guard).
+func c09AmplifyPayload(b *c09Base, total int) []byte {
+	hdr := b.payload[:b.lay.hdrEnd]
+	out := make([]byte, total)
+	copy(out, hdr)
+	const tail = 1 << 14 // keeps every digest length a minimal 3-byte varint
+	for p := len(hdr); p+7+tail <= total; p += 7 {
+		rem := total - (p + 7)
+		out[p], out[p+1], out[p+2], out[p+3] = 6, 1, 0x55, 0
+		out[p+4] = byte(rem&0x7f) | 0x80
+		out[p+5] = byte((rem>>7)&0x7f) | 0x80
+		out[p+6] = byte((rem >> 14) & 0x7f)
+	}
+	return out
+}
+
 // field offsets inside a marshalled index (after the codec varint)
 type c09IdxFields struct{ counts, widths, dataLens []int }
 
@@ -391,7 +411,7 @@ func c09Plan(r *RNG, plan *[]c09Planned, in *c09Input, row c09Row, entries []int
 			j.Keys = in.keys
 		case c09EReplaceRoots:
 			j.Roots = in.roots
-		case c09EResume:
+		case c09EResume, c09EResumeHuge:
 			if len(in.data) == 0 {
 				continue
 			}
@@ -406,7 +426,7 @@ func c09Plan(r *RNG, plan *[]c09Planned, in *c09Input, row c09Row, entries []int
 			}
 			j.W = []uint64{in.dpad, 0, d.codec, z, d.maxCid, 0, 0, 0, v1, row.maxH, row.maxS}
 			j.Roots = in.roots
-			if v1 == 0 && c09ResumeHuge(in.data, in.dpad) {
+			if e == c09EResume && v1 == 0 && c09ResumeHuge(in.data, in.dpad) {
 				j.Entry = c09EResumeHuge
 			}
 		}
@@ -550,6 +570,13 @@ func c09Produce(c *Ctx) {
 		c09Plan(r, &plan, ovIn, rowFor(), c09CarEntries)
 		w, _ := c09Wrap(ov, dpad, 0, 0)
 		c09Plan(r, &plan, mk(w, "overlap-sections-in-v2", true, false), rowFor(), c09CarEntries)
+		// the quadratic case of the same shape (one per run: 64 KiB cost the walkers ~0.5 GiB)
+		if a == 0 {
+			amp := mk(c09AmplifyPayload(&b, 64<<10), "overlap-amplification", false, false)
+			amp.dpad = 0
+			c09Plan(r, &plan, amp, c09DefaultRow, []int{c09EBr, c09ERoot, c09EBrSkip, c09EReader, c09ELoadIndex, c09ERobs,
+				c09EStorage, c09EInspect, c09EResumeHuge})
+		}
 		// raw random, with and without a plausible start
 		for t := 0; t < 12; t++ {
 			raw := r.Bytes(r.Intn(120))
